@@ -1,4 +1,5 @@
 import PysnarkModel.Lemmas.Triple
+import PysnarkModel.Gen.Api
 import PysnarkModel.Spec.R1CS
 /-!
 # C08 — guard state is restored on every exit path and nests as a conjunction
@@ -186,5 +187,12 @@ example :
        | .error _ => false
      | .error _ => false) = true := by
   decide +kernel
+
+
+/-- **API surface pinned** (regenerated from the source on every run, `Gen/Api.lean`): the functions this property's model
+transcribes are exactly the functions the code has; an added or removed function changes the generated list and this
+obligation fails (the tie is then broken by construction and the check runs its extended search). -/
+theorem C08_api_surface :
+    Gen.api_runtime_functions = ["ignore_errors", "is_base_value", "assert_base_value", "add_constraint_unsafe", "benchmark", "add_guard", "restore_guard", "guarded", "is_guard", "if_guard", "add_constraint", "PubVal", "PrivVal", "ConstVal", "for_each_in", "snark", "final"] := rfl
 
 end Pysnark
